@@ -238,7 +238,16 @@ inline Rational ratFromString(const char* desc)
          else
             res = Rational(s);
 
-         res *= pow(10, mult);
+         // apply the decimal exponent exactly (a double power of ten is inexact for negative and large exponents)
+         if(mult != 0)
+         {
+            Integer pow10 = pow(Integer(10), (unsigned) std::abs(mult));
+
+            if(mult > 0)
+               res *= Rational(pow10);
+            else
+               res /= Rational(pow10);
+         }
       }
    }
 
